@@ -322,6 +322,13 @@ def run_partial(res, c, d, base, tier):
                 except Exception as e:
                     res.violation('partial-layout:raises:%s' % type(e).__name__, 'transform from get_transform_fxn(mef_channels=%r) applied to a sample with columns %r raised %s: %s' % (
                         mef_channels, list(d_re.channels), type(e).__name__, e), dict(c))
+            # calibrated by POSITION: the transformation applies to a plain array with the same columns as well
+            if all(isinstance(x, int) for x in mef_channels):
+                for req, cols in requests('quick', named=False):
+                    rc = list(MC) if cols is None else cols
+                    unc = [j for j in rc if j not in MC]
+                    judge(res, 'partial-array', 'transform from get_transform_fxn(mef_channels=%r) applied to a plain array, channels=%r' % (mef_channels, req),
+                          base, base, lambda: tf(base.copy(), req), MC, rc, dict(c), 'channel(s) %r were not calibrated' % unc if unc else None)
             for phase in ('fresh', 'after the caller changed its lists'):
                 for req, cols in requests('quick'):
                     rc = list(MC) if cols is None else cols
